@@ -51,6 +51,11 @@ inductive ArgErr where
 def ArgErr.code : ArgErr → Int
   | .einvalcoords => -40 | .eedge => -57 | .estride => -58 | .enegativecnt => -210 | .enotvar => -49
   | .eglobal => -50 | .echar => -56 | .einval => -36 | .enullstart => -226
+/-- the variable ID itself is unusable: the rank cannot know which variable the others access -/
+def ArgErr.badVarid : ArgErr → Bool
+  | .enotvar => true
+  | .eglobal => true
+  | _ => false
 /-- errors found inside the driver, after `varp` is known (err_check paths of put_varm/get_varm/getput_vard) -/
 inductive DrvErr where | eiomismatch | etypeMismatch deriving DecidableEq, Repr
 def DrvErr.code : DrvErr → Int
@@ -113,15 +118,21 @@ structure Layout where
 
 /-- repairs that may have been applied to the tree (all false = the tree as it is today) -/
 structure Repairs where
-  /-- the NC_REQ_ZERO path of a collective put on a record variable also joins the numrecs Allreduce -/
+  /-- the NC_REQ_ZERO path of a collective put on a record variable also joins the numrecs Allreduce
+      (findings/patches/C08-F2-zero-path.diff: when the variable ID is valid) -/
   zeroPathNumrecs : Bool := false
+  /-- … also when the error is an unusable variable ID (NC_ENOTVAR, NC_EGLOBAL); no patch proposed -/
+  zeroPathBadVarid : Bool := false
+  /-- getput_vard derives new_numrecs from the filetype only when data was written (findings/patches/C05-vard-numrecs.diff) -/
+  vardGuard : Bool := false
   /-- a rank whose ncmpi_fill_var_rec argument is in error still joins the collective fill -/
   fillVarRecErr : Bool := false
   /-- a rank whose metadata-call argument is in error still joins the (NC_HCOLL) collective header write -/
   metaErrJoins : Bool := false
   deriving DecidableEq, Repr
 def Repairs.none : Repairs := {}
-def Repairs.all : Repairs := { zeroPathNumrecs := true, fillVarRecErr := true, metaErrJoins := true }
+def Repairs.all : Repairs :=
+  { zeroPathNumrecs := true, zeroPathBadVarid := true, vardGuard := true, fillVarRecErr := true, metaErrJoins := true }
 
 /-- what is the same on every rank -/
 structure Cfg where
@@ -173,45 +184,53 @@ def isArgErr (x : RankInput) : Bool :=
   | _ => false
 
 /-- `new_numrecs` a rank contributes to the Allreduce(MAX) after a collective put -/
-def newNumrecs (f : Form) (cfg : Cfg) (x : RankInput) : Nat :=
+def newNumrecs (rp : Repairs) (f : Form) (cfg : Cfg) (x : RankInput) : Nat :=
   match f, x.cls with
   | _, .argErr _ => cfg.numrecs
-  | .vard, _ => x.recEnd
   | _, .valid => x.recEnd
+  | .vard, _ => if rp.vardGuard then cfg.numrecs else x.recEnd
   | _, _ => cfg.numrecs
-def maxNew (f : Form) (cfg : Cfg) (world : List RankInput) : Nat :=
-  maxOf cfg.numrecs (world.map (newNumrecs f cfg))
+def maxNew (rp : Repairs) (f : Form) (cfg : Cfg) (world : List RankInput) : Nat :=
+  maxOf cfg.numrecs (world.map (newNumrecs rp f cfg))
+
+/-- does a rank on the NC_REQ_ZERO path with error `e` join the numrecs synchronisation of a collective put? -/
+def zeroJoins (rp : Repairs) (e : ArgErr) : Bool :=
+  if e.badVarid then rp.zeroPathBadVarid else rp.zeroPathNumrecs
+def skipsSync (rp : Repairs) (x : RankInput) : Bool :=
+  match x.cls with
+  | .argErr e => !zeroJoins rp e
+  | _ => false
 
 /-- root's ncmpio_write_numrecs is a collective write only under NC_HCOLL -/
 def hcollWrite (cfg : Cfg) (grow : Bool) : Trace :=
   if cfg.hcoll && cfg.hasRecVars && grow then [.writeAll] else []
 
 /-- end of put_varm / getput_vard for a record variable: Allreduce(MAX), then root writes numrecs -/
-def numrecsSync (f : Form) (cfg : Cfg) (world : List RankInput) : Trace :=
-  .allreduce :: hcollWrite cfg (decide (cfg.numrecs < maxNew f cfg world))
+def numrecsSync (rp : Repairs) (f : Form) (cfg : Cfg) (world : List RankInput) : Trace :=
+  .allreduce :: hcollWrite cfg (decide (cfg.numrecs < maxNew rp f cfg world))
 
 /-- ncmpio_{put,get}_var / ncmpio_{put,get}_vard -/
 def blockingDriver (rp : Repairs) (f : Form) (d : Dir) (vk : VarKind) (cfg : Cfg)
     (world : List RankInput) (me : RankInput) : Trace :=
-  let sync : Trace := if d = .put ∧ vk = .record then numrecsSync f cfg world else []
+  let sync : Trace := if d = .put ∧ vk = .record then numrecsSync rp f cfg world else []
   match me.cls with
-  | .argErr _ =>   -- NC_REQ_ZERO: ncmpio_getput_zero_req, or put_varm(varp=NULL) under aggregation
-      [.setView, rwTok d] ++ (if rp.zeroPathNumrecs then sync else [])
+  | .argErr e =>   -- NC_REQ_ZERO: ncmpio_getput_zero_req, or put_varm(varp=NULL) under aggregation
+      [.setView, rwTok d] ++ (if zeroJoins rp e then sync else [])
   | _ =>           -- put_varm / get_varm / getput_vard: set_view, read/write_at_all, numrecs
       [.setView, rwTok d] ++ sync
 
 /-- ncmpio_{put,get}_varn and the mput/mget dispatchers: every rank ends in ncmpio_wait (req_commit) -/
-def nbDriver (d : Dir) (vk : VarKind) (cfg : Cfg) (world : List RankInput) : Trace :=
+def nbDriver (rp : Repairs) (d : Dir) (vk : VarKind) (cfg : Cfg) (world : List RankInput) : Trace :=
   .allreduce ::
     (if world.any isValid then
        [.setView, rwTok d] ++
-         (if d = .put ∧ vk = .record then hcollWrite cfg (decide (cfg.numrecs < maxNew .nb cfg world)) else [])
+         (if d = .put ∧ vk = .record then hcollWrite cfg (decide (cfg.numrecs < maxNew rp .nb cfg world)) else [])
      else [])
 
 def getputDriver (rp : Repairs) (f : Form) (d : Dir) (vk : VarKind) (cfg : Cfg)
     (world : List RankInput) (me : RankInput) : Trace :=
   match f with
-  | .nb => nbDriver d vk cfg world
+  | .nb => nbDriver rp d vk cfg world
   | _ => blockingDriver rp f d vk cfg world me
 
 /-- dispatcher of every blocking collective get/put -/
@@ -417,7 +436,7 @@ def localRet (api : Api) (cfg : Cfg) (world : List RankInput) (me : RankInput) :
 def Trigger (rp : Repairs) (api : Api) (cfg : Cfg) (x : RankInput) : Prop :=
   match api with
   | .getput f .put .record =>
-      rp.zeroPathNumrecs = false ∧ cfg.safe = false ∧ f ≠ .nb ∧ isArgErr x = true
+      cfg.safe = false ∧ f ≠ .nb ∧ skipsSync rp x = true
   | .fillVarRec => rp.fillVarRecErr = false ∧ cfg.safe = false ∧ fillOwnErr x ≠ 0
   | .enddef _ _ => rp.metaErrJoins = false ∧ cfg.safe = false ∧ x.metaErr ≠ 0
   | .renameVar => rp.metaErrJoins = false ∧ cfg.safe = false ∧ x.metaErr ≠ 0
